@@ -402,6 +402,7 @@ func (c *SizedLRU) removeElement(e *list.Element) {
 	c.uncompressedSize -= roundUp4k(kv.value.size)
 	c.counterEvictedBytes.Add(float64(kv.value.sizeOnDisk))
 	c.appendEvictionToQueue(kv)
+	verifPoint("lru.removed", kv.key, kv.value.sizeOnDisk)
 }
 
 // Round n up to the nearest multiple of BlockSize (4096).
@@ -444,8 +445,10 @@ func (c *SizedLRU) performQueuedEvictions() {
 	sliceOfEntries := <-c.queuedEvictionsChan
 
 	for _, kv := range sliceOfEntries {
+		verifPoint("evict.beforeUnlink", kv.key, kv.value.sizeOnDisk)
 		c.onEvict(kv.key, kv.value)
 		c.queuedEvictionsSize.Add(-kv.value.sizeOnDisk)
+		verifPoint("evict.afterUnlink", kv.key, kv.value.sizeOnDisk)
 	}
 }
 
